@@ -3,7 +3,7 @@ Model: lean/RedisGoModel/Ds/ZTree.lean (the tree of memdb/btree.go), Exec/ZSet.l
 tie: exec engine (server.Manager.ExecCommand + VerifDump hook: the tree is compared node for node, with stored heights, len and dict)."""
 import random
 
-from .. import core, execgen, execgen_zset, execsuite
+from .. import core, execgen, execgen_zset, execsuite, families
 
 
 def run(R, ctx):
@@ -13,12 +13,12 @@ def run(R, ctx):
     execsuite.run_exec_suite(
         R, ctx, name="sorted-sets",
         gens=[(1, execgen_zset.zset_cmd)],
-        nprog=(100, 1500), corpus="exec_c12", keys=execgen_zset.ZKEYS, maxlen=60, extra_lines=extra,
+        nprog=(100, 1500), corpus="exec_c12", keys=execgen_zset.ZKEYS, maxlen=60, extra_lines=extra + families.refused_changes_nothing(rng, 120 if quick else 2000),
         what="sorted-set commands (ZADD with every NX/XX/GT/LT/CH/INCR combination incl. invalid ones, several pairs, duplicate members, "
              "ties, negatives, signed zero, infinities, huge and tiny floats, invalid floats; ZREM; ZRANGE by index with negative and "
              "out-of-range indexes, REV, WITHSCORES; ZRANK), interleaved with SET/EXPIRE/DEL/TYPE/TTL on the same keys; deep-tree programs "
              "(12-40 distinct scores in ascending/descending/zig-zag/random order, score-mates, moves, member-by-member removal); the dump "
-             "compares the AVL tree node for node (scores, stored heights, names), len, node count and the member index")
+             "compares the AVL tree node for node (scores, stored heights, names), len, node count and the member index; refused-command scenarios followed by a full dump (a refused command changes nothing)")
 
 
 def replay(R, payload):
